@@ -22,11 +22,22 @@ def ownerLoc (t : Tree) : Nat → Id → Int → Int → Option (Id × Int × In
       if !w.isVisible || w.freed then none
       else if !(w.rect.memb l c) then none
       else
-        let l' := l - w.rect.top
-        let c' := c - w.rect.left
-        match w.children.findSome? (fun ch => ownerLoc t fuel ch l' c') with
+        match w.children.findSome? (fun ch => ownerLoc t fuel ch (l - w.rect.top) (c - w.rect.left)) with
         | some o => some o
-        | none => some (id, l', c')
+        | none => some (id, l - w.rect.top, c - w.rect.left)
+
+/-- The owner of the cell `(l, c)` of window `id` (in `id`'s own coordinates) within `id`'s subtree: the first child
+    (front-most first) that owns it, else `id` itself.  (`ownerLoc t fuel id` is `ownerSub t fuel id` where `id` is
+    visible and covers the cell: `Proof/WinExpose.lean`.) -/
+def ownerSub (t : Tree) : Nat → Id → Int → Int → Id × Int × Int
+  | 0, id, l, c => (id, l, c)
+  | fuel + 1, id, l, c =>
+    match t.wins[id]? with
+    | none => (id, l, c)
+    | some w =>
+      match w.children.findSome? (fun ch => ownerLoc t fuel ch l c) with
+      | some o => o
+      | none => (id, l, c)
 
 /-- Owner of terminal cell `(l, c)` with the local position (root = window 0). -/
 def ownerAt (t : Tree) (l c : Int) : Option (Id × Int × Int) := ownerLoc t (t.wins.size + 1) 0 l c
@@ -39,12 +50,11 @@ def compose (t : Tree) (content : Id → Int → Int → Cell) (l c : Int) : Opt
   | none => none
 
 /-- The proviso of C01 on expose handlers: asked for `rect`, window `w`'s program leaves `content w` in every cell of
-    `rect` the buffer lets it touch (whatever the buffer's translation, clip and masks are), given that the buffer's
-    pen is the one `_do_expose` establishes for `w` (`pen w`). -/
-def Repaints (content : Id → Int → Int → Cell) (pen : Id → Pen) (beh : Id → Rect → List DrawOp) : Prop :=
-  ∀ (w : Id) (rect : Rect) (rb : RB), rb.pen = pen w →
-    ∀ L C, rb.writable L C = true → rect.memb (L - rb.xl) (C - rb.xc) = true →
-      (rb.run (beh w rect)).cells L C = some (content w (L - rb.xl) (C - rb.xc))
+    `rect` the buffer lets it touch, whatever the buffer's translation, clip, masks and pen are (positions relative to
+    the translation, i.e. to the window's top-left corner). -/
+def Repaints (content : Id → Int → Int → Cell) (beh : Id → Rect → List DrawOp) : Prop :=
+  ∀ (w : Id) (rect : Rect) (rb : RB) (L C : Int), rb.writable L C = true → rect.memb (L - rb.xl) (C - rb.xc) = true →
+    (rb.run (beh w rect)).cells L C = some (content w (L - rb.xl) (C - rb.xc))
 
 end WinSpec
 end Tickit
